@@ -175,7 +175,42 @@ def gen_case(r, pid=None):
     for k, s in enumerate(flat):
         if s[0] == "Feedback":
             case["fbval"][str(k)] = r.choice([0, 1, 2, 3, 10, 100, -5, k])
+    if pid == "C05" and r.random() < 0.5:
+        add_timing(case, r)
     return case
+
+
+def add_timing(case, r):
+    """callbacks that take simulated time and wake-ups that come late, all fitting in the period
+    (Robot.Period.fits): spend[k] us inside invocation k, jitter[i] us lateness of the wake-up of tick i"""
+    P = r.choice([20000, 20000, 10000, 25000, 5000])
+    blocks, _ = spec_sites(case)
+    case["timed"] = True
+    case["period_us"] = P
+    jit = [0]
+    for t in case["ticks"][1:]:
+        jit.append(0 if (t == "end" or t[0] == "fms") else r.choice([0, 0, 1, P // 20, P // 5, P // 3, P // 2]))
+    case["jitter"] = jit
+    spend = {}
+    k = len(blocks[0])
+    for ti, b in enumerate(blocks[1:]):
+        # strictly inside the period: the pass must reach wait() before the alarm is due (one tick = one wake-up)
+        budget = P - (jit[ti] if ti < len(jit) else 0) - 1
+        if b and r.random() < 0.7:
+            style = r.random()
+            if style < 0.3:
+                parts = [budget]                      # the pass uses up the whole period
+            elif style < 0.6:
+                parts = [r.randrange(1, budget + 1)]
+            else:
+                a_ = r.randrange(0, budget + 1)
+                parts = [a_, r.randrange(0, budget - a_ + 1)]
+            for amt in parts:
+                if amt > 0:
+                    kk = k + r.randrange(len(b))
+                    spend[str(kk)] = spend.get(str(kk), 0) + amt
+        k += len(b)
+    case["spend"] = spend
 
 
 # ----------------------------------------------------------------------------------
@@ -335,7 +370,12 @@ def oracle(case, out):
             pid = "C07"
         if "Feedback" in kinds and pid == "C05":
             pid = "C11"
-        v.append((pid, "callback #%d is %s, expected %s (fault-free order cut at the first fault when the FMS is not attached)" % (i, got, want)))
+        msg_ = "callback #%d is %s, expected %s (fault-free order cut at the first fault when the FMS is not attached)" % (i, got, want)
+        v.append((pid, msg_))
+        if pid == "C07" and first_raise is None:
+            # every fault of this run happened with the FMS attached: the robot keeps running and every pass must
+            # still be the full, ordered pass (C05: execute() of every component exactly once ...; C11: every getter)
+            v.append(("C11" if "Feedback" in kinds else ("C06" if kinds & {"Setup", "OnEnable", "OnDisable"} else "C05"), msg_))
     # ---- C06 bracket, independent of the exact order
     enabled = {}
     seen_other = False
@@ -383,9 +423,12 @@ def oracle(case, out):
                 v.append(("C05", "robotPeriodic #%d: /robot/mode is %r while the robot runs %s" % (rpi, e[1], m)))
             if list(e[2]) != nt:
                 v.append(("C11", "robotPeriodic #%d: NetworkTables feedback entries %r, getters returned %r" % (rpi, e[2], nt)))
-            if prev_tick_t is not None and e[3] - prev_tick_t != P_US:
+            if not case.get("timed") and prev_tick_t is not None and e[3] - prev_tick_t != P_US:
                 v.append(("C05", "robotPeriodic #%d at FPGA %d us, previous at %d us: not one iteration per %d us" % (rpi, e[3], prev_tick_t, P_US)))
             prev_tick_t = e[3]
+    # ---- C05, the time axis (timed cases: callbacks take time, wake-ups come late, all fitting in the period)
+    if case.get("timed"):
+        v += [("C05", m) for m in oracle_time(case, out)]
     # ---- C11: every getter exactly once per pass, in every mode (passes that completed)
     marks_ = out.get("marks") or []
     start_ = 0
@@ -432,6 +475,93 @@ def oracle(case, out):
                     st[ci][a] = d
             start = end
     return v
+
+
+def wait_lateness(case):
+    """the scripted lateness of the wake-up that ends the k-th wait() of the run, in order"""
+    return [case["jitter"][ti] if ti < len(case.get("jitter") or []) else 0
+            for ti, t in enumerate(case["ticks"]) if ti >= 1 and (t == "end" or t[0] != "fms")]
+
+
+def oracle_time(case, out):
+    """Within a mode one pass per control_loop_wait_time: the alarms of the mode loop's NotifierDelay stay on
+    the grid anchored at its creation; a wait never returns before its alarm; while passes + lateness fit in
+    the period the i-th wake-up is exactly its scripted lateness after grid point i."""
+    msgs = []
+    P = case["period_us"]
+    lates = wait_lateness(case)
+    wi = 0
+    for ni, nd in enumerate(out.get("nds") or []):
+        t0 = nd["t0"]
+        for j, a in enumerate(nd["alarms"]):
+            if a != t0 + (j + 1) * P:
+                msgs.append("mode loop #%d (NotifierDelay created at FPGA %d us, period %d us): alarm #%d is programmed at %d us, "
+                            "the grid point is %d us -- not one pass per period" % (ni, t0, P, j, a, t0 + (j + 1) * P))
+                return msgs
+        prev_r = t0
+        prev_late = 0
+        for j, (c, r_) in enumerate(nd["waits"]):
+            late = lates[wi] if wi < len(lates) else 0
+            wi += 1
+            if j >= len(nd["alarms"]):
+                break
+            a = nd["alarms"][j]
+            if r_ < a:
+                msgs.append("mode loop #%d: wait #%d returned at %d us, before its alarm %d us" % (ni, j, r_, a))
+                return msgs
+            if prev_late + (c - prev_r) < P and r_ != t0 + (j + 1) * P + late:
+                msgs.append("mode loop #%d (created at %d us, period %d us): pass %d started at %d us, expected grid point %d us "
+                            "+ the wake-up lateness %d us" % (ni, t0, P, j + 1, r_, t0 + (j + 1) * P, late))
+                return msgs
+            prev_r, prev_late = r_, late
+    return msgs
+
+
+def coq_jcases(case, out):
+    """Robot.Period.jcase per mode loop: (period, t0, [(pass duration, lateness of the wake-up)], observed)"""
+    P = case["period_us"]
+    lates = wait_lateness(case)
+    wi = 0
+    res = []
+    for nd in out.get("nds") or []:
+        bl, obs = [], []
+        prev_r = nd["t0"]
+        for j, (c, r_) in enumerate(nd["waits"]):
+            late = lates[wi] if wi < len(lates) else 0
+            wi += 1
+            if j + 1 >= len(nd["alarms"]):
+                break
+            bl.append("(%s, %s)" % (coq_Z(c - prev_r), coq_Z(late)))
+            obs.append("(%s, %s, %s)" % (coq_Z(c), coq_Z(r_), coq_Z(nd["alarms"][j + 1])))
+            prev_r = r_
+        if bl:
+            res.append("(%s, %s, %s, %s)" % (coq_Z(P), coq_Z(nd["t0"]), coq_list(bl), coq_list(obs)))
+    return res
+
+
+def time_correspondence(ctx, pairs, label):
+    """the mode loops of the timed robots against Delay.Model's NotifierDelay under late wake-ups (Robot.Period.jlog)"""
+    owners, jc = [], []
+    for i, (c, o) in enumerate(pairs):
+        if c.get("timed"):
+            for x in coq_jcases(c, o):
+                owners.append(i)
+                jc.append(x)
+    if not jc:
+        return []
+    ctx.coverage["timed_robots"] = sum(1 for c, _ in pairs if c.get("timed"))
+    ctx.coverage["mode_loops_checked_against_the_NotifierDelay_model"] = len(jc)
+    text = ("From Coq Require Import ZArith List Bool.\nFrom RV Require Import Delay.Model Robot.Period.\n"
+            "Import ListNotations.\nOpen Scope Z_scope.\n"
+            "Definition cases : list jcase := [\n%s\n].\nEval vm_compute in (jbad cases).\n" % ";\n".join(jc))
+    rc, out = ctx.coq_file("cases_%s_time" % label, text)
+    lists = parse_eval_lists(out) if rc == 0 else []
+    ok = rc == 0 and len(lists) == 1 and lists[0] == []
+    ctx.obligation("corr:cases_%s_time (every mode loop's wait() call/return/alarm times == NotifierDelay model under late wake-ups)" % label,
+                   ok, out[-1500:])
+    if rc == 0 and len(lists) == 1:
+        return sorted(set(owners[i] for i in lists[0]))
+    return sorted(set(owners))
 
 
 PIDS = ("C05", "C06", "C07", "C10", "C11")
@@ -538,6 +668,8 @@ def robot_check(ctx, pid):
     ctx.obligation("corr:every generated robot started and could be stepped", not undriven,
                    repr([(o.get("error"), o.get("exc"), o.get("stderr", "")[-300:]) for _, o in undriven[:2]]))
     bad = correspondence(ctx, pairs, pid.lower())
+    if pid == "C05":
+        bad = time_correspondence(ctx, pairs, pid.lower()) + bad
     fb_extra = None
     if pid == "C11":
         # key = explicit key else name with ONE leading 'get_' removed; topic type from the return annotation
